@@ -133,6 +133,28 @@ theorem adjRow_slide (kr : Bool) (e : Edit) (r : Spec.RowEnd) (op : Str) (ho : o
         rw [slideIdx_lt hlt]
     · simp only [hd, false_and, if_false]
 
+/-! ### the operand's sheet prefix: everything before the LAST `!` -/
+
+def isSep (c : Char) : Bool := c.toNat == Facts.C07.sheetSep
+
+theorem lastIdx_noSep (tv : Str) (h : noBang tv) : lastIdx (fun c => c.toNat == Facts.C07.sheetSep) tv = none :=
+  lastIdx_none_of h
+
+theorem lastIdx_sep (name cell : Str) (hc : noBang cell) :
+    lastIdx (fun c => c.toNat == Facts.C07.sheetSep) (name ++ '!' :: cell) = some name.length := by
+  have e : name ++ '!' :: cell = (name ++ ['!']) ++ cell := by simp
+  rw [e, lastIdx_append_none _ _ _ hc, lastIdx_snoc _ _ _ (by decide)]
+
+theorem take_sep (name cell : Str) : (name ++ '!' :: cell).take name.length = name := by
+  induction name with
+  | nil => rfl
+  | cons x xs ih => simp [ih]
+
+theorem drop_sep (name cell : Str) : (name ++ '!' :: cell).drop (name.length + 1) = cell := by
+  induction name with
+  | nil => rfl
+  | cons x xs ih => simpa using ih
+
 theorem slideCol_abs (kr : Bool) (e : Edit) (c : Spec.ColEnd) : (Spec.slideCol kr e c).abs = c.abs := by
   unfold Spec.slideCol; split <;> rfl
 
